@@ -77,6 +77,14 @@ theorem load_iff_spec_static (W : World) (strict : Bool) (hN : NoneExact W stric
   ⟨load_iff_spec W strict hN n T d hfuel hm hl ho hs,
    load_rejects_iff W strict hN n T d hfuel hm hl ho hs⟩
 
+/-- **The side condition `OptionalOK` is automatic when no leaf turns `None` into something
+    else** (true of every strict leaf: only `None`'s own loader accepts `None`): then no type
+    expression does, and the `Optional` shortcut of the code is the documented union rule. -/
+theorem optionalOK_of_leaves (W : World) (strict : Bool)
+    (hleaf : ∀ s v, W.scalarLoad strict s .none = .ok v → v = .none) (T : Ty) :
+    OptionalOK W strict T :=
+  spec_optionalOK_of_leaves hleaf T
+
 /-! ### the functional and the relational form of the documentation coincide -/
 
 /-- `specLoad` computes exactly the relation `LoadsTo` (one constructor per documented rule). -/
@@ -206,6 +214,43 @@ theorem loadsTo_iter_iff (W : World) (strict : Bool) (f : Factory) (dl : Bool) (
   · rintro ⟨xs, ys, hxs, hex, hl, hp, hc⟩
     exact .iter hxs hex hl hp hc
 
+/-- the tuple rule, read off `LoadsTo` -/
+theorem loadsTo_tuple_iff (W : World) (strict : Bool) (ts : List Ty) (d v : Val) :
+    LoadsTo W strict (.tuple ts) d v ↔
+      ∃ xs ys, d.iterElems = some xs ∧ (strict = true → d.isMapping = false ∧ d.isStr = false) ∧
+        xs.length = ts.length ∧ xs.length = ys.length ∧
+        (∀ q ∈ ts.zip (xs.zip ys), LoadsTo W strict q.1 q.2.1 q.2.2) ∧ v = .tuple ys := by
+  constructor
+  · intro h
+    cases h with
+    | @tuple _ _ xs ys hxs hex hlen hl hq => exact ⟨xs, ys, hxs, hex, hlen, hl, hq, rfl⟩
+  · rintro ⟨xs, ys, hxs, hex, hlen, hl, hq, rfl⟩
+    exact .tuple hxs hex hlen hl hq
+
+/-- the mapping rule, read off `LoadsTo` -/
+theorem loadsTo_dict_iff (W : World) (strict : Bool) (K V : Ty) (d v : Val) :
+    LoadsTo W strict (.dict K V) d v ↔
+      ∃ kvs out, d = .dict kvs ∧ kvs.length = out.length ∧
+        (∀ q ∈ kvs.zip out, LoadsTo W strict K q.1.1 q.2.1) ∧
+        (∀ q ∈ kvs.zip out, LoadsTo W strict V q.1.2 q.2.2) ∧
+        (∀ p ∈ out, p.1.hashable = true) ∧ v = .dict (insertAll out) := by
+  constructor
+  · intro h
+    cases h with
+    | @dict _ _ kvs out hl hk hv hh => exact ⟨kvs, out, rfl, hl, hk, hv, hh, rfl⟩
+  · rintro ⟨kvs, out, rfl, hl, hk, hv, hh, rfl⟩
+    exact .dict hl hk hv hh
+
+/-- the Literal rule, read off `LoadsTo` -/
+theorem loadsTo_literal_iff (W : World) (strict : Bool) (vals : List Val) (d v : Val) :
+    LoadsTo W strict (.literal vals) d v ↔ v = d ∧ LitAccepts strict vals d := by
+  constructor
+  · intro h
+    cases h with
+    | literal hacc => exact ⟨rfl, hacc⟩
+  · rintro ⟨rfl, hacc⟩
+    exact .literal hacc
+
 /-! ## Dumping -/
 
 /-- **Implementation = documented rule for dumpers**: mode DISABLE returns `y` iff the
@@ -329,7 +374,10 @@ example (d v : Val) :
     load exW ⟨.disable, true⟩ 2 listInt d = .ok v ↔ LoadsTo exW true listInt d v := by
   have hm : ModelFree listInt := by simp [ModelFree, TyAll, listInt, NotModel]
   have hl : LitAtomic listInt := by simp [LitAtomic, TyAll, listInt, LitOK]
-  have ho : OptionalOK exW true listInt := by simp [OptionalOK, TyAll, listInt, OptOK]
+  have ho : OptionalOK exW true listInt := optionalOK_of_leaves exW true (by
+    intro s v h
+    simp only [exW] at h
+    split at h <;> simp_all) listInt
   have hleaf : LeavesSettled exW true listInt := by
     simp only [LeavesSettled, TyAll, listInt, LeafOK, true_and]
     exact exW_settled true "int"
